@@ -191,3 +191,19 @@ pub fn c03_get_oob_opt() {
 pub fn c03_get_oob_list() {
     get_oob::<IL>();
 }
+
+// @h prop=C03 tier=quick kind=proof engine=both inst="FlatStack<MirrorRegion<usize>, IndexOptimized>: clear after arbitrary values" bounds="2 copies of unconstrained usize (first value zero or not: strided or fully spilled), clear, 1 copy" desc="clear empties the stack whatever representation its index container is in: len 0, is_empty, no elements; the next copy is element 0"
+#[cfg_attr(kani, kani::proof, kani::unwind(6))]
+pub fn c03_mirror_opt_clear() {
+    let vals = sym::words::<3>();
+    let mut fs = FlatStack::<MirrorRegion<usize>, IndexOptimized>::default();
+    fs.copy(vals[0]);
+    fs.copy(vals[1]);
+    fs.clear();
+    assert!(fs.len() == 0 && fs.is_empty(), "C03: clear does not empty the stack");
+    assert!(fs.iter().next().is_none(), "C03: a cleared stack still yields elements");
+    fs.copy(vals[2]);
+    assert!(fs.len() == 1 && fs.get(0) == vals[2], "C03: first copy after clear is not element 0");
+    cover!(vals[0] != 0, "history starting with a non-zero value (nothing strided)");
+    sym::forget(fs);
+}
